@@ -12,6 +12,13 @@ only reported plain when walking that name from the top reaches this very object
 name now denotes a different object is reported as "<stale>name"; pymtl3 itself renames removed
 signals / method ports to "<deleted>name".  Every field is a sorted list WITH duplicates, so two
 objects projecting to the same entry are visible.
+
+Family (c15_designs.FAMILIES) = one harness hierarchy with (possibly nested) positions and a palette
+per position; Family.step mirrors NextCfg / NextArg of Replace.tla (replace_component on a hosting
+position re-uses the constructor arguments of the removed object).  Simulation (simulate /
+compare_sim): DefaultPassGroup, Mamba2020, SimpleSimPass; a row per cycle with the top-level outputs
+and the value of every signal of the design built from scratch (looked up by name in the mutated
+design), so that registers that do not commit are observed through behaviour only.
 """
 import collections
 import re
